@@ -66,6 +66,30 @@ func init() {
 		g.assume(st.cond, tImp(tAnd(tEq(a.Comps[0], b.Comps[0]), tEq(a.Comps[1], b.Comps[1])), v.Comps[0]))
 		return []Val{v}
 	}
+	// netip.Addr.AsSlice: a fresh slice whose length and bytes are functions of the address value
+	externModels["net/netip.(Addr).AsSlice"] = func(f *Frame, instr ssa.Instruction, st *State, args []Val, pos token.Pos) []Val {
+		g := f.g
+		a := args[0]
+		g.declareFun("addr_len", addrSorts(a), SInt)
+		ln := g.name("alen", app("addr_len", SInt, a.Comps...))
+		g.assume(boolLit(true), tOr(tEq(ln, intLit(0)), tEq(ln, intLit(4)), tEq(ln, intLit(16))))
+		ln.Lo, ln.Hi = big.NewInt(0), big.NewInt(16)
+		// Is4/Is6 agree with the length
+		is4 := g.pureApp("(net/netip.Addr).Is4", []Val{a}, tBool, st)
+		is6 := g.pureApp("(net/netip.Addr).Is6", []Val{a}, tBool, st)
+		valid := g.pureApp("(net/netip.Addr).IsValid", []Val{a}, tBool, st)
+		g.assume(boolLit(true), tAnd(tEq(is4.Comps[0], tEq(ln, intLit(4))), tEq(is6.Comps[0], tEq(ln, intLit(16))), tEq(valid.Comps[0], tNot(tEq(ln, intLit(0))))))
+		v := Val{Comps: []Term{g.alloc(st, intLit(16)), ln, ln}}
+		k := compKey(elemKey(types.Typ[types.Uint8]), 0)
+		arr := g.heapGet(st, k, arrSort(SInt))
+		for i := 0; i < 16; i++ {
+			arr = tStore(arr, tAdd(v.Comps[0], intLit(int64(i))), g.addrByte(a, i))
+		}
+		g.heapSet(st, k, arr)
+		// nil for the zero Addr
+		ptr := g.name("asl", tIte(tEq(ln, intLit(0)), intLit(0), v.Comps[0]))
+		return []Val{{Typ: instrType(instr), Comps: []Term{ptr, ln, ln}}}
+	}
 	// sync primitives: sequential semantics (assumption A5)
 	for _, k := range []string{
 		"(*sync.Mutex).Lock", "(*sync.Mutex).Unlock", "(*sync.RWMutex).Lock", "(*sync.RWMutex).Unlock",
@@ -162,4 +186,40 @@ func pureExternal(key string) bool {
 		}
 	}
 	return false
+}
+
+func instrType(instr ssa.Instruction) types.Type {
+	if v, ok := instr.(ssa.Value); ok {
+		return v.Type()
+	}
+	return types.NewSlice(types.Typ[types.Uint8])
+}
+
+func addrSorts(a Val) []string {
+	var s []string
+	for _, c := range a.Comps {
+		s = append(s, c.Sort)
+	}
+	return s
+}
+
+// addrByte: the i-th byte of the canonical (AsSlice) form of an address, an uninterpreted function of its value.
+func (g *Gen) addrByte(a Val, i int) Term {
+	g.declareFun("addr_byte", append(addrSorts(a), SInt), SInt)
+	t := app("addr_byte", SInt, append(append([]Term{}, a.Comps...), intLit(int64(i)))...)
+	if g.noName == 0 {
+		t = g.name("ab", t)
+		g.emit("(assert (and (<= 0 " + t.S + ") (<= " + t.S + " 255)))")
+		t.Lo, t.Hi = big.NewInt(0), big.NewInt(255)
+	}
+	return t
+}
+
+// addrBE32: big-endian value of the first four AsSlice bytes (the BGP identifier as an integer).
+func (g *Gen) addrBE32(a Val) Term {
+	r := intLit(0)
+	for i := 0; i < 4; i++ {
+		r = tAdd(r, tMul(g.addrByte(a, i), bigLit(pow2(uint(8*(3-i))))))
+	}
+	return r
 }
